@@ -121,8 +121,8 @@ func viaCustom(v reflect.Value) (Value, bool) {
 }
 
 func refFold(v reflect.Value, amb *int, depth int) Value {
-	if depth > 64 {
-		panic(refuse{"value nested deeper than 64 (self-referential)"})
+	if depth > 2000 {
+		panic(refuse{"value nested deeper than 2000 (self-referential)"})
 	}
 	if val, ok := viaCustom(v); ok {
 		return val
